@@ -18,6 +18,8 @@ def main():
     ap.add_argument("--replay", default=None)
     args = ap.parse_args()
     mc.assert_tree()
+    from mc import state
+    state.snapshot()    # the library's global state while it is pristine
     mod = importlib.import_module(f"mc.props.{args.prop.lower()}")
     if args.replay:
         doc = json.load(open(args.replay))
